@@ -37,7 +37,7 @@ func c16Struct(r *h.Rand, sc *gen.Schema, depth int, n *int) *gen.StructT {
 		}
 		used[id] = true
 		f := &gen.FieldT{ID: id, Name: fmt.Sprintf("f%d_%d", *n, i), Req: r.Intn(3)}
-		kinds := []byte{tref.I32, tref.STRING, tref.BOOL, tref.DOUBLE, tref.I64, tref.BYTE, tref.I16, tref.LIST, tref.MAP}
+		kinds := []byte{tref.I32, tref.STRING, tref.BOOL, tref.DOUBLE, tref.I64, tref.BYTE, tref.I16, tref.LIST, tref.MAP, tref.SET}
 		k := kinds[r.Intn(len(kinds))]
 		if depth > 0 && r.Chance(30) {
 			k = tref.STRUCT
@@ -45,6 +45,8 @@ func c16Struct(r *h.Rand, sc *gen.Schema, depth int, n *int) *gen.StructT {
 		switch k {
 		case tref.LIST:
 			f.T = &gen.Type{T: tref.LIST, Elem: &gen.Type{T: tref.I32}}
+		case tref.SET:
+			f.T = &gen.Type{T: tref.SET, Elem: &gen.Type{T: tref.I32}}
 		case tref.MAP:
 			f.T = &gen.Type{T: tref.MAP, Key: &gen.Type{T: tref.STRING}, Elem: &gen.Type{T: tref.I64}}
 		case tref.STRUCT:
